@@ -161,6 +161,18 @@ CLAIMED = {
         note="dataframe collections are not generated (pyarrow absent); iterators are single-use so structures "
              "holding one are computed once; tasks atomic under E1.",
         ref="DESIGN.md §4 C14"),
+    "C48": dict(
+        technique="deterministic simulation (E1): bag pipelines under simulated schedules on sync/threaded/"
+                  "get_async/multiprocessing (cloudpickle boundary, fusion on/off), disk shuffle on real partd "
+                  "files and multi-stage task shuffle, compared with plain Python",
+        text="Each generated pipeline (transforms + one terminal operation over partitions that may be empty) "
+             "is computed under two independently drawn scheduler/schedule combinations and must equal the "
+             "plain-Python reference (multisets where bags promise no order). The schedule and process-"
+             "boundary dimensions are what expose lazily evaluated partitions reaching two consumers or "
+             "crossing the boundary un-reified, and disk-shuffle barrier mistakes.",
+        note="partd is real but not fault-injected; element type is small ints (tuples/dicts inside pipelines); "
+             "tasks atomic under E1.",
+        ref="DESIGN.md §4 C48"),
 }
 
 NA = {
